@@ -93,8 +93,8 @@ func histFamiliesW(c *CheckRun, wantFan bool, light bool) []histB {
 		out = append(out, fNum(k, 4)...)
 	}
 	if !light {
-		// (float64 stops at three keys: four symbolic 64-bit floats cost > 6 solver-hours per check)
-		for _, k := range []int{kindI64, kindF32} {
+		// (64-bit types stop at three keys: four symbolic float64 / int64 keys cost 6.5 / 4 solver-hours per check)
+		for _, k := range []int{kindF32} {
 			out = append(out, fNum(k, 4)...)
 		}
 	}
@@ -168,7 +168,7 @@ var commonBounds = []string{
 	"operation kinds and key lengths of a scenario are concrete; all key bytes / numeric key values / stored values / probe and bound arguments / counts are symbolic",
 	"F-short: every Insert/Delete sequence of n ops over byte-string keys of length 0..L (first op an Insert); quick n<=3,L=2; thorough n<=3,L=3 and n=4,L=2",
 	"F-long: two keys stem(p)+1 byte, one more symbolic op and probe over {same stem +0/1/2 bytes, stem with one symbolic byte at position 0, p/2, p-1, stem shortened by 1 or 2}; p in {maxPrefixLen, +1} quick; {-1,0,+1,+2, 2*maxPrefixLen} thorough",
-	"F-num: every Insert/Delete pattern of 2 symbolic values for all 12 numeric types and of 3 for uint8 (quick); thorough: 3 for all 12 types and 4 for uint8, int8, uint16, int64, float32",
+	"F-num: every Insert/Delete pattern of 2 symbolic values for all 12 numeric types and of 3 for uint8 (quick); thorough: 3 for all 12 types and 4 for uint8, int8, uint16, float32",
 	"F-fan (where used): one node with m concrete 1-byte siblings for m at every grow/shrink threshold (4,16,48 / 3,12,37 as read from the working tree's constants), then 1 (quick) or 2 (thorough) symbolic Insert/Delete and a symbolic probe; sibling bytes = {00,01,7f,80,fe,ff} plus seed-chosen fill",
 	"F-fan additions: a node16 that was full and is shrunk to 2/6 children by deleting its largest bytes (stale lanes hold the removed maximum); all 256 byte values under one node (update-free base); F-fan-stem bases whose 5/17/49 siblings and the stem key are all deleted again; F-fan-kind (uint8, int8, uint16, float32; thorough int64; collation and compound with concrete encodings) incl. a node48 whose first-inserted children are deleted and, for uint16/int64/float32/collation/compound, the same fans below the root",
 	"length-field boundaries (C01, C06, C15): two byte-string keys of 255 and 65535 bytes (thorough 254..257, 65534..65537), concrete stem, symbolic last byte: insert, overwrite, second insert, All, Minimum, failed and real Delete",
